@@ -2602,7 +2602,10 @@ class TypeBlocks(ContainerOperand):
             sel = isna_array(b) # True for is NaN
             ndim = sel.ndim
 
-            if ndim == 1 and not sel[sided_index]:
+            if not len(sel):
+                # no rows: there is no sided value to observe and nothing to fill
+                yield b
+            elif ndim == 1 and not sel[sided_index]:
                 # if last value (bottom row) is not NaN, we can return block
                 yield b
             elif ndim > 1 and ~sel[sided_index].any(): # if not any are NaN
